@@ -117,6 +117,13 @@ structure Out where
   reads : List (Material × Nat)
   deriving DecidableEq, Repr
 
+/-- the reads of `Config.Rand` before the key-share loop: ClientHello random and a first session id
+(`makeClientHelloForApplyPreset`), the GREASE seed, the session id that goes on the wire; no session id is
+read for a QUIC connection. -/
+def preReads (quic : Bool) : List (Material × Nat) :=
+  [(.random, 32)] ++ (if quic then [] else [(.sessionId0, 32)]) ++ [(.grease, 10)] ++
+  (if quic then [] else [(.sessionId, 32)])
+
 /-- `ApplyPreset` on a spec with these key shares. `prev` = the key set the connection holds before
 (`none` on the first application); `keepKeys` = the D12 repair (an existing key set is kept). -/
 def applyPreset (quic : Bool) (greaseGroup : Nat) (keepKeys : Bool) (prev : Option Keys)
@@ -124,10 +131,7 @@ def applyPreset (quic : Bool) (greaseGroup : Nat) (keepKeys : Bool) (prev : Opti
   let start : Keys := match prev, keepKeys with
     | some k, true => k
     | _, _ => {}
-  let pre : List (Material × Nat) :=
-    [(.random, 32)] ++ (if quic then [] else [(.sessionId0, 32)]) ++ [(.grease, 10)] ++
-    (if quic then [] else [(.sessionId, 32)])
-  (loop greaseGroup { keys := start, reads := pre } 0 spec).map fun st =>
+  (loop greaseGroup { keys := start, reads := preReads quic } 0 spec).map fun st =>
     { keys := st.keys, wire := st.wire, sessionIdLen := if quic then 0 else 32, reads := st.reads }
 
 /-- the spec objects after an application: every share now carries the data that was marshalled. -/
